@@ -99,7 +99,7 @@ def body():
                         for name in ("edges", "element_edges", "edge_adjacency", "vertex_adjacency", "elements"):
                             if not np.array_equal(getattr(g, name), getattr(g2, name)):
                                 fail("dtype_independence", "%s differs for elements dtype %s order %s" % (name, dt, order))
-                        if np.abs(g.normals - g2.normals).max() > 1e-12:
+                        if not (np.abs(g.normals - g2.normals).max() <= 1e-12):   # NaN counts as a deviation
                             fail("dtype_independence", "normals differ for dtype %s" % vdt)
             except Exception as exc:  # the library must accept every grid of the universe
                 fail("exception", "%s: %s" % (type(exc).__name__, exc))
